@@ -208,8 +208,15 @@ def run_shard(ctx):
             ctx.nontrivial(("fw", bits, v % (1 << 64)))
     # 7. header dicts
     from ..gen import rand_json, rand_str
-    for _ in range(1500 if ctx.tier == "quick" else 40000):
+    # strings every JSON encoder can write with \u escapes: lone surrogates (json.loads('"\\ud800"') yields one), astral and control characters
+    # (a high surrogate directly followed by a low one is left out: it comes back as one astral character)
+    special = ["\ud800", "\udfff", "x\udbff", "\udc00x", "\ud800 \udc00", "\U0001F600", "\x00", "\x7f", "\u2028\u2029", "\ufeff", "\uffff", "é", "\u00e9\u0301"]
+    n_json = 1500 if ctx.tier == "quick" else 40000
+    for it in range(n_json):
         h = {rand_str(rng): rand_json(rng, 0, 3) for _ in range(rng.randrange(0, 5))}
+        if it % 10 == 0:
+            sp = special[(it // 10) % len(special)]
+            h[rng.choice(["cty", sp])] = rng.choice([sp, [sp], {"n": sp}])
         ctx.ev()
         o = call(u.json_b64encode, h)
         if not o.ok:
